@@ -63,6 +63,12 @@ func VerifC06Options(n int) {
 	verifC06Fixpoint(append(verifValidPrefix(), verifBytes("opt", n)...))
 }
 
+// VerifC06Shaped: areas of up to four option instances with symbolic codes and values (see
+// verifShapedArea).
+func VerifC06Shaped(l1, l2, l3, l4, pad int) {
+	verifC06Fixpoint(append(verifValidPrefix(), verifShapedArea([]int{l1, l2, l3, l4}, pad)...))
+}
+
 // VerifC06Header: symbolic header; which selects the part left symbolic with possible NULs:
 // 0: scalar fields, addresses, hlen (any value 0..255) and chaddr; 1: server name of 64 symbolic
 // bytes; 2: boot file of 128 symbolic bytes.
